@@ -180,6 +180,9 @@ func init() {
 		"math/bits.Len32": func(e *Exec, fn *ssa.Function, a []Value) Value { return e.bitsLen(a[0].(*Term)) },
 		"math/bits.Len":   func(e *Exec, fn *ssa.Function, a []Value) Value { return e.bitsLen(a[0].(*Term)) },
 
+		repoMod + "/snapshot/gogosnapshot.sovSnapshot": func(e *Exec, fn *ssa.Function, a []Value) Value {
+			return intrinsics["github.com/CrowdStrike/csproto.SizeOfVarint"](e, fn, a)
+		},
 		"github.com/CrowdStrike/csproto.SizeOfVarint": func(e *Exec, fn *ssa.Function, a []Value) Value {
 			// summary of (bits.Len64(v|1)+6)/7, validated against the real body by selftest
 			v := a[0].(*Term)
